@@ -1,18 +1,32 @@
 /* VERIF-UNIT
 {
  "name": "region_allocate_B3",
- "props": ["C01", "C02"],
+ "props": [
+  "C01",
+  "C02"
+ ],
  "level": "B(3)",
- "tier": "wip",
+ "tier": "quick",
  "harness": "h_region",
- "includes": ["e2fsck", "lib/support"],
- "defines": ["EXT2_CUSTOM_MEMORY_ROUTINES"],
+ "includes": [
+  "e2fsck",
+  "lib/support"
+ ],
+ "defines": [
+  "EXT2_CUSTOM_MEMORY_ROUTINES"
+ ],
  "unwind": 6,
  "unwind_reason": "BOUNDED stand-in: a region list of 0..3 elements before the call (at most 4 after it): the search loop of region_allocate, region_free and the harness's walks run at most 5 times; unwinding assertions on",
- "functions": ["e2fsck/region.c:region_allocate", "e2fsck/region.c:region_create", "e2fsck/region.c:region_free"],
- "assumes": ["bounded: 0..3 allocated regions, built by the harness from arbitrary numbers: min <= start_0 < end_0 < start_1 < end_1 < ... <= max (sorted, disjoint, NOT adjacent: the real code merges adjacent regions, so a list it built never contains two adjacent ones), 'last' = the tail element (NULL for the empty list); the container itself comes from the real region_create",
-	     "n >= 0 (every caller passes a size); start + n does not wrap (start <= 2^62)",
-	     "ext2fs_get_mem / ext2fs_get_memzero / ext2fs_free_mem as malloc / calloc / free; allocation of the new element may fail"],
+ "functions": [
+  "e2fsck/region.c:region_allocate",
+  "e2fsck/region.c:region_create",
+  "e2fsck/region.c:region_free"
+ ],
+ "assumes": [
+  "bounded: 0..3 allocated regions, built by the harness from arbitrary numbers: min <= start_0 < end_0 < start_1 < end_1 < ... <= max (sorted, disjoint, NOT adjacent: the real code merges adjacent regions, so a list it built never contains two adjacent ones), 'last' = the tail element (NULL for the empty list); the container itself comes from the real region_create",
+  "n >= 0 (every caller passes a size); start + n does not wrap (start <= 2^62)",
+  "ext2fs_get_mem / ext2fs_get_memzero / ext2fs_free_mem as malloc / calloc / free; allocation of the new element may fail"
+ ],
  "native": false
 }
 */
